@@ -464,7 +464,7 @@ def run_model(mr, scs, res):
     return out
 
 
-def side_oracles(sc, r):
+def side_oracles(sc, r, exp=None):
     """oracles on the client's own state of t1 that a leftover-lock scan cannot see (all evaluated on the implementation):
     (P) while a pessimistic transaction is open, its primary key is a key the client tracks as locked (flagged, current or
         previous aggressive-locking key) — a never-locked "ghost" primary makes later locks and prewrites name a key that holds
@@ -507,6 +507,7 @@ def side_oracles(sc, r):
         elif e["kind"] == "send" and e.get("cmd") == "TxnHeartBeat" and (e.get("f") or {}).get("start") == S:
             cur_hb.append(unhex(e["f"]["primary"]))
     ttl = sc.get("managed_ttl") or 20000
+    mka = {x["i"]: x.get("ka") for x in (exp or []) if "ka" in x}
     done = False
     for pos, i in enumerate(order):
         s = by_i[i]
@@ -514,11 +515,15 @@ def side_oracles(sc, r):
             done = True
         near = [by_i[j]["bk"] for j in order[max(0, pos - 3):pos + 1]]
         ok = set()
-        for bk in near:
-            ok |= tracked(bk) | ({bk["primary"]} if bk.get("primary") else set())
+        if mka:
+            # model-compared: the key the Locks model's keep-alive is bound to after this call or one of the three before
+            ok = {mka[j] for j in order[max(0, pos - 3):pos + 1] if mka.get(j)}
+        else:
+            for bk in near:
+                ok |= tracked(bk) | ({bk["primary"]} if bk.get("primary") else set())
         for name in hb.get(i, []):
             if not done and name not in ok:
-                out.append(f"(H) a heart-beat sent during step {i} ({s['op']}) names {name!r}, neither the primary nor a key the client holds (allowed {sorted(ok)})")
+                out.append(f"(H) a heart-beat sent during step {i} ({s['op']}) names {name!r}, not the key the keep-alive is bound to (model; allowed {sorted(ok)})")
                 break
         if not done and s["op"] == "sleep" and pos > 0:
             before = by_i[order[pos - 1]]["bk"]
@@ -538,7 +543,7 @@ def judge(v, sc, r, mres, counts):
         v.violation({"kind": "property-oracle", "scenario": sc, "steps": [{k: w for k, w in s.items() if k != "bk"} for s in r.get("steps", [])],
                      "txns": r.get("txns"), "model_leftover": mleft, "model_vs_client": mbad[:5],
                      "violated": ["lock of a finished transaction left behind: %s" % bad]})
-    so = side_oracles(sc, r)
+    so = side_oracles(sc, r, exp)
     if so:
         n += 1
         counts["side_oracle_failures"] = counts.get("side_oracle_failures", 0) + 1
